@@ -112,7 +112,7 @@ func c07Options(t *tape.Tape, thorough bool) gen.Options {
 	o.SamePkgConflict = t.Bool(1, 2)
 	o.ServiceMethod = t.Bool(1, 2)
 	o.Enums = t.Bool(1, 3)
-	o.Nested = t.Bool(1, 3) // differential oracle: shapes beyond the conventional subset cost nothing
+	o.Nested = t.Bool(1, 2) // differential oracle: shapes beyond the conventional subset cost nothing
 	return o
 }
 
